@@ -59,6 +59,7 @@ type skBuilder struct {
 	blocks  []skBlock
 	pending string // label of the statement being translated
 	loopTop []ast.Stmt
+	flow    *skFlow
 }
 
 type skBlock struct {
@@ -121,6 +122,7 @@ func (x *accExtractor) buildSkeletons() []*skFunc {
 		all = append(all, s)
 	}
 	sort.Slice(all, func(i, j int) bool { return all[i].name < all[j].name })
+	flow := x.funcValueFlow(byObj, byLit)
 	for _, s := range all {
 		var p *pkgInfo
 		var body *ast.BlockStmt
@@ -130,7 +132,7 @@ func (x *accExtractor) buildSkeletons() []*skFunc {
 		} else {
 			p, body, owner = s.clo.pkg, s.clo.lit.Body, s.clo.owner
 		}
-		b := &skBuilder{x: x, p: p, cur: s, rowsAt: rowsAt, rowPos: rowPos, byObj: byObj, byLit: byLit,
+		b := &skBuilder{x: x, p: p, cur: s, rowsAt: rowsAt, rowPos: rowPos, byObj: byObj, byLit: byLit, flow: flow,
 			w: &walker{x: x, p: p, fn: owner}}
 		var pre []*cmd
 		if s.fn != nil {
@@ -442,6 +444,9 @@ func (b *skBuilder) closureCall(fl *ast.FuncLit, kind string) *cmd {
 	if s == nil {
 		return nil
 	}
+	if b.flow.viaParam[fl.Pos()] && kind == "" {
+		return nil // runs where the callee calls its parameter (see callCmd), with the locks held THERE
+	}
 	c := b.refTo(s)
 	ci := s.clo
 	var cs []*cmd
@@ -481,6 +486,25 @@ func (b *skBuilder) refTo(s *skFunc) *cmd {
 // callCmd translates a call expression: lock operation, static call, interface call (all implementations)
 func (b *skBuilder) callCmd(c *ast.CallExpr, kind string) *cmd {
 	w := b.w
+	if id, ok := c.Fun.(*ast.Ident); ok {
+		if v, ok := w.p.info.Uses[id].(*types.Var); ok {
+			if ts, known := b.flow.targets(v); known {
+				var alts []*cmd
+				for _, t := range ts {
+					alts = append(alts, b.refTo(t))
+				}
+				if len(alts) == 0 {
+					return nil
+				}
+				call := altOf(alts)
+				if kind == "go" || kind == "defer" {
+					b.cur.hasOwn = true
+					return &cmd{op: "spawn", kids: []*cmd{call}}
+				}
+				return call
+			}
+		}
+	}
 	callee, recv := w.calleeOf(c)
 	if callee == nil {
 		return nil
@@ -623,4 +647,163 @@ func skLocalRels(c *cmd, out map[string]bool, calls map[*skFunc]bool) {
 	for _, k := range c.kids {
 		skLocalRels(k, out, calls)
 	}
+}
+
+// ---------------------------------------------------------------------------------------------
+// function values flowing into function-typed parameters (closed world, package-local callees)
+
+type skFlow struct {
+	into     map[*types.Var]map[*skFunc]bool // parameter → the function literals / declared functions it may be bound to
+	unknown  map[*types.Var]bool             // something else may flow in, or the parameter escapes
+	viaParam map[token.Pos]bool              // function literals that run only through resolved parameters
+}
+
+func (f *skFlow) targets(v *types.Var) ([]*skFunc, bool) {
+	m, ok := f.into[v]
+	if !ok || f.unknown[v] {
+		return nil, false
+	}
+	var out []*skFunc
+	for s := range m {
+		out = append(out, s)
+	}
+	sort.Slice(out, func(i, j int) bool { return out[i].name < out[j].name })
+	return out, true
+}
+
+// funcValueFlow: for every package-local function that cannot be entered from elsewhere (unexported, never used
+// as a value) and each of its function-typed parameters p: which function literals / declared functions are
+// passed for p at the static call sites, following parameters that are passed on (`do(d, write, read)` →
+// `doRequest(d, write)`).  p is resolved only if inside its function it is used solely as `p(…)` or as such an
+// argument.  A literal all of whose uses are "argument for a resolved parameter" is then translated at the places
+// where the parameter is CALLED — the lockset there is derived, not annotated.
+func (x *accExtractor) funcValueFlow(byObj map[*types.Func]*skFunc, byLit map[token.Pos]*skFunc) *skFlow {
+	fl := &skFlow{into: map[*types.Var]map[*skFunc]bool{}, unknown: map[*types.Var]bool{}, viaParam: map[token.Pos]bool{}}
+	type edge struct{ from, to *types.Var }
+	var forwards []edge
+	litArg := map[token.Pos]*types.Var{} // literal → the parameter it is passed for
+	paramsOf := func(fn *funcNode) []*types.Var {
+		var out []*types.Var
+		for _, f := range fn.decl.Type.Params.List {
+			if len(f.Names) == 0 {
+				out = append(out, nil)
+			}
+			for _, n := range f.Names {
+				v, _ := fn.pkg.info.Defs[n].(*types.Var)
+				out = append(out, v)
+			}
+		}
+		return out
+	}
+	isFuncVar := func(v *types.Var) bool {
+		if v == nil {
+			return false
+		}
+		_, ok := v.Type().Underlying().(*types.Signature)
+		return ok
+	}
+	// candidate parameters
+	for _, fn := range x.funcs {
+		for _, v := range paramsOf(fn) {
+			if isFuncVar(v) {
+				fl.into[v] = map[*skFunc]bool{}
+				if !fn.propagate || fn.decl.Type.Params.List[len(fn.decl.Type.Params.List)-1].Type == nil {
+					fl.unknown[v] = true
+				}
+				if _, variadic := fn.decl.Type.Params.List[len(fn.decl.Type.Params.List)-1].Type.(*ast.Ellipsis); variadic {
+					fl.unknown[v] = true
+				}
+			}
+		}
+	}
+	for _, p := range x.pkgs {
+		w := &walker{x: x, p: p}
+		for _, file := range p.files {
+			okUse := map[*ast.Ident]bool{} // identifier occurrences of parameters that are fine
+			ast.Inspect(file, func(n ast.Node) bool {
+				c, ok := n.(*ast.CallExpr)
+				if !ok {
+					return true
+				}
+				if id, ok := c.Fun.(*ast.Ident); ok {
+					if v, ok := p.info.Uses[id].(*types.Var); ok && fl.into[v] != nil {
+						okUse[id] = true // p(…)
+					}
+				}
+				callee, _ := w.calleeOf(c)
+				fn := x.funcs[callee]
+				if fn == nil {
+					return true
+				}
+				ps := paramsOf(fn)
+				for i, a := range c.Args {
+					if i >= len(ps) || !isFuncVar(ps[i]) {
+						continue
+					}
+					to := ps[i]
+					switch a := a.(type) {
+					case *ast.FuncLit:
+						if s := byLit[a.Pos()]; s != nil {
+							if s.clo.sync {
+								continue // run by the callee while the caller's locks are held: translated where it is written
+							}
+							fl.into[to][s] = true
+							litArg[a.Pos()] = to
+						} else {
+							fl.unknown[to] = true
+						}
+					case *ast.Ident:
+						if v, ok := p.info.Uses[a].(*types.Var); ok && fl.into[v] != nil {
+							forwards = append(forwards, edge{v, to})
+							okUse[a] = true
+						} else if o, ok := p.info.Uses[a].(*types.Func); ok && byObj[o] != nil {
+							fl.into[to][byObj[o]] = true
+						} else if a.Name != "nil" {
+							fl.unknown[to] = true
+						}
+					default:
+						fl.unknown[to] = true
+					}
+				}
+				return true
+			})
+			// any other mention of a candidate parameter: it escapes
+			ast.Inspect(file, func(n ast.Node) bool {
+				if id, ok := n.(*ast.Ident); ok && !okUse[id] {
+					if v, ok := p.info.Uses[id].(*types.Var); ok && fl.into[v] != nil {
+						fl.unknown[v] = true
+					}
+				}
+				return true
+			})
+		}
+	}
+	for changed := true; changed; {
+		changed = false
+		for _, e := range forwards {
+			for s := range fl.into[e.from] {
+				if !fl.into[e.to][s] {
+					fl.into[e.to][s], changed = true, true
+				}
+			}
+			if fl.unknown[e.from] && !fl.unknown[e.to] { // unknown values are passed on as well
+				fl.unknown[e.to], changed = true, true
+			}
+		}
+	}
+	// a parameter that is passed on to an unresolved parameter is only partly visible: unresolved as well
+	for changed := true; changed; {
+		changed = false
+		for _, e := range forwards {
+			if fl.unknown[e.to] && !fl.unknown[e.from] {
+				fl.unknown[e.from], changed = true, true
+			}
+		}
+	}
+	for pos, v := range litArg {
+		if !fl.unknown[v] {
+			fl.viaParam[pos] = true
+		}
+	}
+	return fl
 }
